@@ -222,8 +222,18 @@ def rule_char_sib(facts):
         r.errors.append("no `impl Char for char`")
         return r
 
+    # a Char method that an impl does not define runs the trait's provided body (for every token type)
+    defaults = {b["name"]: b for b in facts.bodies if b.get("in_trait") == "text::Char" and b["kind"] != "Closure"}
+
     def table(kind, meth):
         b = kinds[kind].get(meth)
+        if b is None and meth in defaults:
+            # decided on the provided body: its accepted set is whatever the methods it calls accept - not a literal table.  The
+            # literals it mentions are all the rule can attribute to it; `is_whitespace() && !is_newline()` mentions none, i.e. it is
+            # no longer the documented two-character set
+            b = defaults[meth]
+            lits = body_literals(b)
+            return {chr(v) if k in ("char", "u8") else v for k, v in lits}, b
         if b is None:
             return None, None
         if kind in ("u8", "char") and meth in ("is_newline", "is_inline_whitespace"):
